@@ -6,14 +6,24 @@
 (*                                                                         *)
 (* One ndjson record per line (env TRACE); a `new` record starts a fresh   *)
 (* history.  Histories are sequential and every record carries arguments   *)
-(* and results, so validation is deterministic except for                  *)
-(*   - the FIFO re-admission reading (fmode, chosen at `new`), and         *)
-(*   - deviation actions of open known findings (only when listed in kf).  *)
+(* and results, so validation is deterministic: exactly one state per      *)
+(* record (both FIFO readings of re-admission are carried along).  The     *)
+(* deviations of open known findings (enabled by the kf list of the `new`  *)
+(* record) describe what the defective code does, deterministically, and   *)
+(* are recorded in `devs` only where a record cannot be explained without  *)
+(* them; with kf = [] the spec is strict.                                  *)
+(*                                                                         *)
+(* Because validation is deterministic, a record that cannot be explained  *)
+(* is known to be unexplainable when it is reached: it is printed as       *)
+(* <<"REJECT", index, record, history number>> and validation resumes at   *)
+(* the next `new` record, so one TLC run judges every history of the file. *)
+(* POSTCONDITION Accepted fails iff some record was rejected.              *)
 (*                                                                         *)
 (* records:                                                                *)
-(*  {"k":"new","pols":[names],"inst":[labels],"kf":[ids],...}              *)
+(*  {"k":"new","pols":[names],"inst":[labels],"caps":[..],"kf":[ids],...}  *)
 (*      the same history was produced by all these policy instances        *)
-(*  {"k":"admit","key":K,"c":C,"d":"admit"|"reject"|"evict","v":[victims]} *)
+(*  {"k":"admit","key":K,"c":C[,"d":"reject"|"evict","v":[victims]]}       *)
+(*      (d defaults to "admit", v to [])                                   *)
 (*  {"k":"access","key":K,"c":C}                                           *)
 (*  {"k":"remove","key":K}                                                 *)
 (*  {"k":"evict","n":N,"v":[victims],"f":FREED}                            *)
@@ -27,23 +37,30 @@ N == Len(Rec)
 
 VARIABLES
   l,        \* next record to explain
-  cfg,      \* [pols: set of policy names, kf: enabled deviations]
+  hno,      \* number of the current history in the file (for the DEV / REJECT lines)
+  cfg,      \* [pols: set of policy names, cap: constructor capacity of the first instance, kf: enabled deviations]
+  over,     \* (for the guard of POL_F19) an admission happened while the tracked keys were worth >= cfg.cap
+  rc,       \* recorded costs as a policy with an open cost finding (POL_F18) keeps them; = tracked otherwise
   lruOrd,   \* PolicyLRU!order
-  fifoOrd,  \* PolicyFIFO!order
-  fmode,    \* PolicyFIFO reading of re-admission: TRUE = refresh
+  fifoK,    \* PolicyFIFO!order under the reading "a re-admitted key keeps its place"
+  fifoR,    \* PolicyFIFO!order under the reading "a re-admitted key goes to the back"
+  fk, fr,   \* the reading is still consistent with this history
   devs      \* deviation actions used
-vars == <<tracked, l, cfg, lruOrd, fifoOrd, fmode, devs>>
+vars == <<tracked, l, hno, cfg, over, rc, lruOrd, fifoK, fifoR, fk, fr, devs>>
 
 L == INSTANCE PolicyLRU WITH order <- lruOrd
-F == INSTANCE PolicyFIFO WITH order <- fifoOrd
+FK == INSTANCE PolicyFIFO WITH order <- fifoK
+FR == INSTANCE PolicyFIFO WITH order <- fifoR
 
 Max2(a, b) == IF a > b THEN a ELSE b
 Track == TLCSet(1, Max2(TLCGet(1), l))
 
 R == Rec[l]
-Is(k) == l <= N /\ R.k = k
-Next1 == l' = l + 1
+Kind == IF l <= N THEN R.k ELSE "eof"
 SeqToSet(s) == {s[i] : i \in 1..Len(s)}
+\* fields with defaults
+RD == IF "d" \in DOMAIN R THEN R.d ELSE "admit"
+RV == IF "v" \in DOMAIN R THEN R.v ELSE <<>>
 
 Dev(id) == id \in cfg.kf
 Has(P) == cfg.pols \cap P # {}
@@ -54,110 +71,150 @@ NonEvicting == {"null"}
 Evicting == cfg.pols \ NonEvicting # {}
 
 Init ==
-  /\ TLCSet(1, 0)
-  /\ l = 1
-  /\ cfg = [pols |-> {}, kf |-> {}]
-  /\ tracked = Empty /\ lruOrd = <<>> /\ fifoOrd = <<>> /\ fmode = FALSE /\ devs = {}
-
-New ==
-  /\ Is("new")
-  /\ cfg' = [pols |-> SeqToSet(R.pols), kf |-> SeqToSet(R.kf)]
-  /\ tracked' = Empty /\ lruOrd' = <<>> /\ fifoOrd' = <<>> /\ devs' = {}
-  /\ fmode' \in (IF "fifo" \in SeqToSet(R.pols) THEN {FALSE, TRUE} ELSE {FALSE})
-  /\ Next1
+  /\ TLCSet(1, 0) /\ TLCSet(2, 0)
+  /\ l = 1 /\ hno = 0
+  /\ cfg = [pols |-> {}, cap |-> 0, kf |-> {}]
+  /\ over = FALSE
+  /\ tracked = Empty /\ rc = Empty /\ lruOrd = <<>> /\ fifoK = <<>> /\ fifoR = <<>>
+  /\ fk = TRUE /\ fr = TRUE /\ devs = {}
 
 \* ---- known findings ---------------------------------------------------------
-\* F18: fifo, slru and clock ignore the cost of a re-admission: the recorded cost
-\* stays the one of the first admission (slru: until an access carries the entry's
-\* cost into the protected segment).
+\* POL_F18: fifo, slru and clock ignore the cost of a re-admission: the recorded cost
+\* stays the one of the first admission since the key became tracked; slru
+\* overwrites it with the cost carried by the next on_access of the key.
 F18Pols == {"fifo", "slru", "clock"}
-DevF18Admit ==
-  /\ Dev("F18") /\ Has(F18Pols)
-  /\ R.d = "admit" /\ R.v = <<>>
-  /\ R.key \in DOMAIN tracked /\ tracked[R.key] # R.c
-  /\ UNCHANGED tracked
-  /\ devs' = devs \cup {"F18"}
-DevF18Access ==
-  /\ Dev("F18") /\ Has({"slru"})
-  /\ R.key \in DOMAIN tracked /\ tracked[R.key] # R.c
-  /\ tracked' = [tracked EXCEPT ![R.key] = R.c]
-  /\ UNCHANGED devs
+F18On == Dev("POL_F18") /\ Has(F18Pols)
+RcAfterAdmit(k, c) == IF F18On /\ k \in DOMAIN tracked THEN rc ELSE Put(rc, k, c)
+RcAfterAccess(k, c) == IF F18On /\ Has({"slru"}) /\ k \in DOMAIN tracked THEN [rc EXCEPT ![k] = c] ELSE rc
 
 \* Shortfall findings: evict frees less than requested although the tracked keys
-\* are worth it.
-\*  F19 (arc): on_admit's replace() moves resident keys to the ghost lists without
-\*      reporting them; they are never nominated afterwards.
-\*  F25 (arc): replace() finds no victim while 0 < cost(T1) < p and T2 is empty.
-\*  F26 (tinylfu): evict only looks at the main segment; keys still in the
-\*      admission window are never nominated by evict.
-\* With one of them enabled the clause "frees at least" is not checked for that
-\* policy; all other clauses still are.
-ShortDevs == {<<"F19", "arc">>, <<"F25", "arc">>, <<"F26", "tinylfu">>}
-DevShort(id) == \E x \in ShortDevs : x[1] = id /\ Dev(id) /\ x[2] \in cfg.pols
+\* are worth it.  With one of them enabled the clause "frees at least" is checked
+\* only as far as the guard below says; all other clauses still are.
+\*  POL_F19 (arc): when the keys it tracks are worth its capacity or more, on_admit
+\*      makes room with replace(), which moves a resident key to a ghost list
+\*      without reporting it; the key is never nominated afterwards.  Guard: such
+\*      an admission happened in this history (`over`).
+\*  POL_F27 (arc): replace() finds no victim while 0 < cost(T1) < p and T2 is empty, so
+\*      evict returns nothing although T1 holds resident keys.  Guard: arc, and
+\*      POL_F19 cannot be the reason (or is not an open finding any more).
+\*  POL_F28 (tinylfu): evict only looks at the main segment; keys still in the
+\*      admission window (worth at most 1 % of the capacity, at least 1) are not
+\*      nominated by evict.  Guard: what is left is worth no more than the window.
+Window(cap) == IF cap = 0 THEN 0 ELSE Max2(1, (cap + 50) \div 100)
+ShortDev(f) ==
+  IF "arc" \in cfg.pols
+    THEN IF over /\ Dev("POL_F19") THEN {"POL_F19"} ELSE {"POL_F27"} \cap cfg.kf
+    ELSE IF "tinylfu" \in cfg.pols /\ Total - f <= Window(cfg.cap) THEN {"POL_F28"} \cap cfg.kf
+    ELSE {}
 
-\* ---- records ------------------------------------------------------------------
-AdmitRec ==
-  /\ Is("admit")
-  /\ \/ Admit(R.key, R.c, R.d, R.v) /\ UNCHANGED devs
-     \/ DevF18Admit
-  /\ IsLru => L!OrdAdmitGuard(R.key, R.d, R.v)
-  /\ L!OrdAdmitEff(R.key, R.d, R.v)
-  /\ IsFifo => F!OrdAdmitGuard(R.key, R.d, R.v, fmode)
-  /\ F!OrdAdmitEff(R.key, R.d, R.v, fmode)
-  /\ UNCHANGED <<cfg, fmode>>
-  /\ Next1
+\* ---- records: guard (state predicate) and effect ---------------------------------
+Rest == <<cfg, hno>>
 
-AccessRec ==
-  /\ Is("access")
-  /\ \/ Access(R.key) /\ UNCHANGED devs
-     \/ DevF18Access
-  /\ L!OrdAccessEff(R.key) /\ F!OrdAccessEff(R.key)
-  /\ UNCHANGED <<cfg, fmode>>
-  /\ Next1
+NewEff ==
+  /\ cfg' = [pols |-> SeqToSet(R.pols), cap |-> IF Len(R.caps) > 0 THEN R.caps[1] ELSE 0, kf |-> SeqToSet(R.kf)]
+  /\ hno' = hno + 1 /\ over' = FALSE
+  /\ tracked' = Empty /\ rc' = Empty /\ lruOrd' = <<>> /\ fifoK' = <<>> /\ fifoR' = <<>>
+  /\ fk' = TRUE /\ fr' = TRUE /\ devs' = {}
 
-RemoveRec ==
-  /\ Is("remove")
+FifoAdmitK == fk /\ FK!OrdAdmitGuard(R.key, RD, RV, FALSE)
+FifoAdmitR == fr /\ FR!OrdAdmitGuard(R.key, RD, RV, TRUE)
+AdmitOk ==
+  /\ AdmitGuard(R.key, R.c, RD, RV)
+  /\ IsLru => L!OrdAdmitGuard(R.key, RD, RV)
+  /\ IsFifo => FifoAdmitK \/ FifoAdmitR
+AdmitEff ==
+  /\ Admit(R.key, R.c, RD, RV)
+  /\ rc' = IF RD = "reject" THEN rc
+           ELSE Restrict(RcAfterAdmit(R.key, R.c), DOMAIN RcAfterAdmit(R.key, R.c) \ SeqToSet(RV))
+  /\ L!OrdAdmitEff(R.key, RD, RV)
+  /\ FK!OrdAdmitEff(R.key, RD, RV, FALSE) /\ FR!OrdAdmitEff(R.key, RD, RV, TRUE)
+  /\ fk' = (IF IsFifo THEN FifoAdmitK ELSE fk) /\ fr' = (IF IsFifo THEN FifoAdmitR ELSE fr)
+  /\ over' = (over \/ ("arc" \in cfg.pols /\ RD # "reject" /\ Total >= cfg.cap))
+  /\ UNCHANGED <<Rest, devs>>
+
+AccessEff ==
+  /\ Access(R.key)
+  /\ rc' = RcAfterAccess(R.key, R.c)
+  /\ L!OrdAccessEff(R.key) /\ FK!OrdAccessEff(R.key) /\ FR!OrdAccessEff(R.key)
+  /\ UNCHANGED <<Rest, over, fk, fr, devs>>
+
+RemoveEff ==
   /\ Remove(R.key)
-  /\ L!OrdRemoveEff(R.key) /\ F!OrdRemoveEff(R.key)
-  /\ UNCHANGED <<cfg, fmode, devs>>
-  /\ Next1
+  /\ rc' = Restrict(rc, DOMAIN rc \ {R.key})
+  /\ L!OrdRemoveEff(R.key) /\ FK!OrdRemoveEff(R.key) /\ FR!OrdRemoveEff(R.key)
+  /\ UNCHANGED <<Rest, over, fk, fr, devs>>
 
-EvictRec ==
-  /\ Is("evict")
-  /\ EvictSafe(R.v, R.f)
-  /\ IF Evicting => EvictEnough(R.n, R.f)
-       THEN UNCHANGED devs
-       ELSE \E id \in {"F19", "F25", "F26"} : DevShort(id) /\ devs' = devs \cup {id}
-  /\ EvictEff(R.v)
+\* rc = tracked unless POL_F18 is enabled for this policy; then this is PolicyA!Evict.
+EvStrict == EvictSafe(R.v, R.f) /\ (Evicting => EvictEnough(R.n, R.f))
+EvF18 == Evicting => EvictEnoughC(rc, R.n, R.f)            \* differs from EvStrict only when rc # tracked
+FifoEvictK == fk /\ FK!OrdEvictGuard(R.v)
+FifoEvictR == fr /\ FR!OrdEvictGuard(R.v)
+EvictOk ==
+  /\ EvictSafeC(rc, R.v, R.f)
+  /\ EvStrict \/ EvF18 \/ ShortDev(R.f) # {}
   /\ IsLru => L!OrdEvictGuard(R.v)
-  /\ L!OrdEvictEff(R.v)
-  /\ IsFifo => F!OrdEvictGuard(R.v)
-  /\ F!OrdEvictEff(R.v)
-  /\ UNCHANGED <<cfg, fmode>>
-  /\ Next1
+  /\ IsFifo => FifoEvictK \/ FifoEvictR
+EvictRecEff ==
+  /\ devs' = IF EvStrict THEN devs ELSE IF EvF18 THEN devs \cup {"POL_F18"} ELSE devs \cup ShortDev(R.f)
+  /\ EvictEff(R.v)
+  /\ rc' = Restrict(rc, DOMAIN rc \ SeqToSet(R.v))
+  /\ L!OrdEvictEff(R.v) /\ FK!OrdEvictEff(R.v) /\ FR!OrdEvictEff(R.v)
+  /\ fk' = (IF IsFifo THEN FifoEvictK ELSE fk) /\ fr' = (IF IsFifo THEN FifoEvictR ELSE fr)
+  /\ UNCHANGED <<Rest, over>>
 
-ClearRec ==
-  /\ Is("clear")
-  /\ Clear /\ L!OrdClearEff /\ F!OrdClearEff
-  /\ UNCHANGED <<cfg, fmode, devs>>
-  /\ Next1
+ClearEff ==
+  /\ Clear /\ rc' = Empty /\ L!OrdClearEff /\ FK!OrdClearEff /\ FR!OrdClearEff
+  /\ over' = FALSE
+  /\ UNCHANGED <<Rest, fk, fr, devs>>
 
-EndRec ==
-  /\ Is("end")
-  /\ \A d \in devs : PrintT(<<"DEV", d>>)
-  /\ UNCHANGED <<tracked, cfg, lruOrd, fifoOrd, fmode, devs>>
-  /\ Next1
+EndEff ==
+  /\ \A d \in devs : PrintT(<<"DEV", d, hno>>)
+  /\ UNCHANGED <<tracked, Rest, over, rc, lruOrd, fifoK, fifoR, fk, fr, devs>>
 
-Next == New \/ AdmitRec \/ AccessRec \/ RemoveRec \/ EvictRec \/ ClearRec \/ EndRec
+\* the record at l can be explained from the current state
+RecOk ==
+  CASE Kind = "new" -> TRUE
+    [] Kind = "admit" -> AdmitOk
+    [] Kind = "access" -> TRUE
+    [] Kind = "remove" -> TRUE
+    [] Kind = "evict" -> EvictOk
+    [] Kind = "clear" -> TRUE
+    [] Kind = "end" -> TRUE
+    [] OTHER -> FALSE           \* panic, hung, eof
+
+Step ==
+  /\ RecOk
+  /\ CASE Kind = "new" -> NewEff
+       [] Kind = "admit" -> AdmitEff
+       [] Kind = "access" -> AccessEff
+       [] Kind = "remove" -> RemoveEff
+       [] Kind = "evict" -> EvictRecEff
+       [] Kind = "clear" -> ClearEff
+       [] Kind = "end" -> EndEff
+  /\ l' = l + 1
+
+\* An unexplainable record: report it and resume at the next history.
+RECURSIVE NextNew(_)
+NextNew(i) == IF i > N THEN i ELSE IF Rec[i].k = "new" THEN i ELSE NextNew(i + 1)
+Fail ==
+  /\ l <= N /\ ~RecOk
+  /\ PrintT(<<"REJECT", l, ToJson(R), hno>>)
+  /\ TLCSet(2, TLCGet(2) + 1)
+  /\ l' = NextNew(l + 1)
+  /\ UNCHANGED <<tracked, Rest, over, rc, lruOrd, fifoK, fifoR, fk, fr, devs>>
+
+Next == Step \/ Fail
 
 Spec == Init /\ [][Next]_vars
 
 \* evaluated at every step of every real history
-PolicyInv == L!OrderOk /\ F!OrderOk
+PolicyInv ==
+  /\ L!OrderOk /\ FK!OrderOk /\ FR!OrderOk
+  /\ DOMAIN rc = DOMAIN tracked /\ (~F18On => rc = tracked)
+  /\ IsFifo => fk \/ fr
 
 Accepted ==
-  IF TLCGet(1) = N + 1
-    THEN TRUE
-    ELSE /\ PrintT(<<"REJECT", TLCGet(1), ToJson(Rec[TLCGet(1)])>>)
-         /\ FALSE
+  /\ TLCGet(1) = N + 1 \/ PrintT(<<"STUCK", TLCGet(1)>>)
+  /\ TLCGet(1) = N + 1
+  /\ TLCGet(2) = 0
 =========================================================================
